@@ -7,7 +7,19 @@ def margin(rng, k=None):
     """feasibility or optimality decided by 2^-k, far below double precision"""
     k = k if k is not None else rng.choice([30, 60, 80, 200, 400])
     eps = F(1, 2 ** k)
-    kind = rng.choice(["infeas", "feas-point", "feas-thin", "opt-tilt", "infeas2"])
+    kind = rng.choice(["infeas", "feas-point", "feas-thin", "opt-tilt", "infeas2", "eq-parallel", "eq-parallel", "eq-parallel-z"])
+    if kind.startswith("eq-parallel"):
+        # two parallel equality rows whose right-hand sides differ by less than the floating-point tolerances
+        e2 = rng.choice([F(1, 10 ** 7), F(1, 2 ** 30), F(1, 10 ** 9), eps, F(3, 10 ** 8)])
+        a, b = F(rng.rint(1, 3)), F(rng.rint(1, 3))
+        rhs = F(rng.rint(1, 5))
+        cols = [[F(1), F(0), INF], [F(2), F(0), INF]]
+        r2 = [(0, a), (1, b)]
+        if kind == "eq-parallel-z":
+            cols.append([F(0), F(0), F(1)])
+            r2 = r2 + [(2, F(1))]
+        rows = [["E", rhs, F(0), [(0, a), (1, b)]], ["E", rhs + rng.choice([1, -1]) * e2, F(0), r2]]
+        return LP(rng.choice(["max", "min"]), cols, rows)
     if kind == "infeas":          # x <= 1 , x >= 1 + eps
         return LP("min", [[F(1), NINF, INF]], [["L", F(1), F(0), [(0, F(1))]], ["G", 1 + eps, F(0), [(0, F(1))]]])
     if kind == "feas-point":      # x <= 1+eps , x >= 1+eps
@@ -97,6 +109,35 @@ def shape(rng):
 
 def sparse(rng, m, n, d=0.15):
     return random_lp(rng, m=m, n=n, dens=d)
+
+
+def wide_chain(rng, n):
+    """n columns (n a multiple of the partial-pricing group size is the interesting case), bounded and feasible:
+    the objective sits on a few columns whose growth is limited through difference rows x_a - x_b <= c by other
+    columns that only become attractive after an earlier pivot"""
+    cols = [[F(0), F(0), INF] for _ in range(n)]
+    rows = []
+    heads = rng.shuffle(list(range(n)))[: rng.rint(1, 3)]
+    used = set(heads)
+    for h in heads:
+        cols[h][0] = F(-rng.rint(1, 3))
+        a = h
+        for depth in range(rng.rint(1, 3)):
+            b = rng.below(n)
+            if b in used:
+                continue
+            used.add(b)
+            rows.append(["L", F(rng.rint(0, 3)), F(0), [(a, F(1)), (b, F(-1))]])
+            a = b
+        if rng.chance(0.5):
+            cols[a][2] = F(rng.rint(1, 9))
+        else:
+            rest = [j for j in range(n) if j not in heads]
+            pick = sorted(set([a] + rng.shuffle(rest)[: rng.rint(3, 12)]))
+            rows.append(["L", F(rng.rint(2, 12)), F(0), [(j, F(1)) for j in pick]])
+    rest = [j for j in range(n) if j not in heads]
+    rows.append(["L", F(rng.rint(5, 20)), F(0), [(j, F(1)) for j in rest]])
+    return LP("min", cols, rows)
 
 
 def mixed(rng, n_lps, small=True):
